@@ -494,6 +494,7 @@ def explore(
                 break
             except (AssumptionFailed, Exception):
                 continue
+    res["cover"] = sorted(cover_all)
     res["cpu_s"] = round(time.process_time() - t_start, 3)
     res["wall_s"] = round(time.time() - w_start, 3)
     res["smt_queries"] = _QUERIES["n"]
